@@ -1,7 +1,10 @@
 """C08 — group casts succeed exactly when the requested traits are present.
  '108 <enabled mask> <container 0 Box/1 &mut/2 &> | castop request ; ..'  compiled program: a group with 3 optional traits, 8 implementor types enabling the 8
      subsets; castop 0 check / 1 as_ref / 2 as_mut / 3 cast(+upcast back) / 4 into; row = [castop request success peek a b c enabled-after-upcast].
- '4 <nmand> | names'  structural abstraction of REAL group expansions and of the REAL cast macros (see C04)."""
+ '4 <nmand> | names'  structural abstraction of REAL group expansions and of the REAL cast macros (see C04); a name may be an aliased instantiation of a
+     generic trait, `Get<u8>=GetU8`.
+ '204 <nmand> | names'  REAL cglue_impl_group! expansions (TraitGroupImpl) for every subset of the optional traits, listed in reverse order: which vtables
+     fill_table / fill_fwd_table enable and which traits the where clause names."""
 PROP = "C08"
 PROP_V = "props/C08.v"
 RULE = ("ALL 8 enabled sets x 7 requests x 5 operations x 3 containers (exhaustive: 840 cells) in compiled programs; structural: fixed and random groups with "
@@ -52,17 +55,43 @@ def known_match(kf, l, fails):
 def gen_cases(rng, tier):
     a, d1 = G.cast_cases(rng, tier)
     b, d2 = G.grp_cases(rng, tier)
+    c, d3 = G.grp_cases(rng.fork("impl"), tier, mid=204)
     d1.update(d2)
-    return a + b, d1
+    d1.update(d3)
+    return a + b + c, d1
 
 
 def _names(l):
-    hdr, rows = vlib.parse_case(l)
-    return hdr[1], ["".join(chr(c) for c in r) for r in rows]
+    return G.grp_names(l)
+
+
+def impl_monitor(l, impl_rows):
+    """cglue_impl_group!(T, G, { listed }): the vtables filled for T are exactly the listed ones (for the owned and the Fwd filler alike)"""
+    fails = []
+    nmand, names = _names(l)
+    for r in impl_rows.split(" ; "):
+        r = [int(x) for x in r.split()]
+        mask = r[0]
+        listed = [names[nmand + b] for b in range(len(names) - nmand) if mask >> b & 1]
+        if len(r) < 7:
+            fails.append("cglue_impl_group!(T, G, {%s}) is rejected or its expansion is not recognised" % ", ".join(listed))
+            continue
+        show = lambda m: "{%s}" % ", ".join(names[nmand + b] for b in range(len(names) - nmand) if m >= 0 and m >> b & 1)
+        for what, em, cnt in (("fill_table", r[1], r[2]), ("fill_fwd_table", r[3], r[4])):
+            if em != mask or cnt != len(listed):
+                fails.append("cglue_impl_group!(T, G, {%s}): %s enables %s with %d calls — a cast to a listed trait that is not enabled fails although the type provides it"
+                             % (", ".join(listed), what, show(em), cnt))
+        if r[6] != 0:
+            fails.append("cglue_impl_group!(T, G, {%s}) enables %d vtables that are no optional trait of the group" % (", ".join(listed), r[6]))
+        if r[5] != mask:
+            fails.append("cglue_impl_group!(T, G, {%s}): the where clause requires T to implement %s" % (", ".join(listed), show(r[5])))
+    return fails[:4]
 
 
 def monitor(l, impl_rows, kv):
     """model-independent oracle on REAL group expansions: the property statement itself"""
+    if l.startswith("204 ") and impl_rows and impl_rows.strip() != "-6":
+        return impl_monitor(l, impl_rows)
     if not l.startswith("4 ") or not impl_rows or impl_rows.strip() == "-6":
         return []
     fails = []
